@@ -274,9 +274,9 @@ with `&self.limbs`, the limb list itself).  Subset extensions used there:
       the function's value is the call with the counter's initial value (`LIMBS - 1`, truncated: for `LIMBS = 0` Rust's
       `usize` subtraction overflows — a panic — and the translation reads the default limb 0 at index 0).
 Eleventh unit group (round 4, G18; written to lean/CB/Gen/SafeGcdLimbs.lean, imports CB.Gen.SafeGcd): the LIMB arithmetic of
-safegcd (C10) — `impl<const LIMBS: usize> UnsatInt<LIMBS> { add, mul, neg, shr, eq, is_negative, lowest, select }` (namespace
-CB.Gen.SafeGcdLimbs.UnsatInt) and the free functions `fg`, `de` (namespace CB.Gen.SafeGcdLimbs) of src/modular/safegcd.rs,
-64-bit configuration.  Subset extensions (unit option `unsat`, so the earlier generated files do not change):
+safegcd (C10) — `impl<const LIMBS: usize> UnsatInt<LIMBS> { add, mul, neg, shr, eq, is_negative, lowest, select, leading_zeros,
+bits }` (namespace CB.Gen.SafeGcdLimbs.UnsatInt) and the free functions `fg`, `de`, `divsteps` (namespace CB.Gen.SafeGcdLimbs;
+`jump` / `iterations` are the ninth group's, unit option `use=['safegcd']`) of src/modular/safegcd.rs, 64-bit configuration.  Subset extensions (unit option `unsat`, so the earlier generated files do not change):
   `UnsatInt<LIMBS>` (`Self` inside `impl UnsatInt`) is a NEWTYPE over `[u64; LIMBS]`: the list of its 62-bit words
   (`List (BitVec 64)`, little endian, `LIMBS : Nat` explicit); `x.0` is that list, `x.0[i]` a `u64` (`x.getD i 0#64`: total, the
   default is never taken inside `while i < LIMBS`), `x.0[i] = e` is `x.set i e`; methods on an `UnsatInt` value and
@@ -291,6 +291,14 @@ CB.Gen.SafeGcdLimbs.UnsatInt) and the free functions `fg`, `de` (namespace CB.Ge
   `-x as u64` on an `i64` (unary minus binds tighter than `as`; the pattern is kept), `x as u128` of an `i64` sign-extends;
   a `while i < LIMBS - 1` bound (truncated `Nat` subtraction: for `LIMBS = 0` Rust's `usize` subtraction panics, the
   translation runs zero rounds) — the fourth `while` form, unchanged.
+  `divsteps`: `while i < m` with `m` a `usize` WORD computed from data (`iterations(f_0.bits(), g.bits())`) — the fourth `while`
+  form with a word bound (compared as `Nat`s, fuel `m.toNat`); the untyped `let mut delta = 1;` is loop state, typed by the one
+  width that type-checks the body (64: an argument of `jump`); `&f.0` of an `UnsatInt` passes the word list to a `&[u64]`
+  parameter; `let mut matrix;` (declared at the top, assigned and used only inside the loop body, first by the destructuring
+  assignment `(delta, matrix) = jump(..);`) is a scratch variable of the body: that assignment is read as
+  `let (delta_new, matrix) = jump(..); delta = delta_new;` (`localize_declared`; same values, same order), so `matrix` is a
+  body-local `let` and not loop state; `debug_assert!(g.eq(..))` after the loop is skipped (it is hypothesis H_divsteps_done of
+  C10, reported by the model's `.g`).
 """
 import os, re, sys, json
 
@@ -3374,6 +3382,63 @@ def _g18_lookup(self, name, where):
 Gen.ex, Gen.lookup, Gen.const = _g18_ex, _g18_lookup, _g18_const
 
 
+def _occurs(x, name):
+    """does the variable `name` occur anywhere in the AST `x` (as a `('var', name)` node or as the target of a statement)"""
+    if isinstance(x, (list, tuple)):
+        return any(_occurs(y, name) for y in x)
+    return x == name
+
+
+def localize_declared(stmts):
+    """(G18, `unsat` units) `let mut m;` at the top level of a function whose every use lies inside ONE `while` body, where its
+    first occurrence is as a target of a destructuring assignment `(a, m) = e;` and nothing assigns it again: a scratch variable
+    of that body.  The assignment is read as `let (a_new, m) = e; a = a_new;` (the same values in the same order) and the
+    declaration is dropped, so `m` is a local of the body, not loop state."""
+    stmts = list(stmts)
+    for st in [x for x in stmts if x[0] == 'declare']:
+        name = st[1]
+        users = [x for x in stmts if x is not st and _occurs(x, name)]
+        if len(users) != 1 or users[0][0] != 'while' or _occurs(users[0][1], name):
+            continue
+        w = users[0]
+        body = list(w[2])
+        j = [k for k, x in enumerate(body) if _occurs(x, name)][0]
+        x = body[j]
+        if x[0] != 'assign_tuple' or _occurs(x[2], name) or any(lv[0] != 'var' for lv in x[1]):
+            continue
+        if [lv[1] for lv in x[1]].count(name) != 1 or any(name in assigned_vars([y]) for y in body[j + 1:]):
+            continue
+        names, after = [], []
+        for lv in x[1]:
+            if lv[1] in (name, '_'):
+                names.append(lv[1])
+                continue
+            tmp = lv[1] + '_new'
+            if _occurs(stmts, tmp):
+                names = None
+                break
+            names.append(tmp)
+            after.append(('assign', lv[1], '=', ('var', tmp)))
+        if names is None:
+            continue
+        body[j:j + 1] = [('lettuple', names, x[2])] + after
+        neww = (w[0], w[1], body) + tuple(w[3:])
+        stmts = [neww if y is w else y for y in stmts if y is not st]
+    return stmts
+
+
+_run_g18 = Gen.run
+
+
+def _g18_run(self, stmts, env, lines, declared=None):
+    if OPTS.get('unsat') and declared is None and any(x[0] == 'declare' for x in stmts):
+        stmts = localize_declared(stmts)
+    return _run_g18(self, stmts, env, lines, declared)
+
+
+Gen.run = _g18_run
+
+
 def impl_blocks(src, self_ty):
     """the bodies of all inherent impl blocks `impl[<..>] Ty[<..>] {` of a file, concatenated"""
     out = []
@@ -3630,10 +3695,11 @@ FILES = [
     ('SafeGcdLimbs.lean', ['CB.Gen.SafeGcd', None, 'set_option linter.unusedVariables false'], [
         dict(key='unsat', rel=['src/modular/safegcd.rs'], ns='CB.Gen.SafeGcdLimbs.UnsatInt', self_ty='UnsatInt', generic='LIMBS',
              unsat=True, desc='impl<const LIMBS: usize> UnsatInt<LIMBS>: add, mul(i64), neg, shr, eq, is_negative, lowest, select',
-             want=['add', 'mul', 'neg', 'shr', 'eq', 'is_negative', 'lowest', 'select']),
+             want=['add', 'mul', 'neg', 'shr', 'eq', 'is_negative', 'lowest', 'select', 'leading_zeros', 'bits']),
         dict(key='safegcd_limbs', rel='src/modular/safegcd.rs', ns='CB.Gen.SafeGcdLimbs', self_ty=None, generic='LIMBS',
              unsat=True, free_generic=True, skip_mods=['verif'], defer_lets=True,
-             desc='fg, de: the matrix applied to (f, g) and to (d, e) modulo the modulus', want=['fg', 'de']),
+             desc='fg, de: the matrix applied to (f, g) and to (d, e) modulo the modulus; divsteps: the outer loop', want=['fg', 'de', 'divsteps'],
+             use=['safegcd']),
     ]),
 ]
 
